@@ -13,7 +13,8 @@ Step(e) ==
       [] e.op = "Decrypt"          -> e.i \in DOMAIN store /\ Decrypt(e.key, e.i)
       [] e.op = "DecryptBad"       -> DecryptBad(e.key, e.sv)
       [] e.op = "DecryptTruncated" -> e.i \in DOMAIN store /\ DecryptTruncated(e.i)
-      [] e.op = "LoadStored"       -> LoadStored(e.shape)
+      [] e.op = "LoadStored"       -> LoadStored(e.shape, e.fm)
+      [] e.op = "EncryptPair"      -> EncryptPair(e.key, e.m, e.pt, e.nested)
       [] e.op = "Assign"           -> Assign(e.alg, e.p)
       [] e.op = "LoadPlain"        -> LoadPlain(e.alg, e.p)
       [] e.op = "Challenge"        -> Challenge(e.q)
